@@ -179,20 +179,22 @@ func VerifLocalStoreTwoTorrents() {
 }
 
 // VerifLocalStoreConcurrentCleanup: a cleanup pass (entries, then groups) runs
-// concurrently with a renewal and a first announcement; neither is lost and
-// both show their latest data afterwards.
+// concurrently with a renewal or a first announcement (1 | 2 peers announced
+// before, at symbolic instants, so they may or may not be expired); the
+// concurrent announcement is not lost and shows its latest data afterwards.
 func VerifLocalStoreConcurrentCleanup() {
 	verif.Option("max_preempt", verif.Bound("preemptions", 1, 2))
 	s, clk, now, ttl := verifLSetup()
 	defer s.Close()
 	g := &verifLGhost{}
 	verifLAnnounce(s, g, 0, 0, now)
-	now = verifLAdvance(clk, now)
-	verifLAnnounce(s, g, 0, 1, now)
+	if verif.Bound("peers_before_race", 1, 2) == 2 {
+		now = verifLAdvance(clk, now)
+		verifLAnnounce(s, g, 0, 1, now)
+	}
 	now = verifLAdvance(clk, now)
 	verif.Cover("first-announcement-expired", now > g.ann[0][0].at+ttl)
 	verif.Cover("first-announcement-still-fresh", now < g.ann[0][0].at+ttl)
-	verif.Cover("both-announcements-expired", now > g.ann[0][1].at+ttl)
 
 	// what the announcer thread will send (drawn before the threads start)
 	who := 2 * verif.Choice("announcer", 2) // renewal of peer 0, or first announcement of peer 2
